@@ -1,7 +1,8 @@
 pub mod c04;
+pub mod c08;
 pub mod c11;
 pub mod c16;
 
 pub fn all() -> Vec<crate::Prop> {
-    vec![c04::prop(), c11::prop(), c16::prop()]
+    vec![c04::prop(), c08::prop(), c11::prop(), c16::prop()]
 }
